@@ -1707,5 +1707,991 @@ example (K : Consts ℝ) (A : Arith ℝ) :
     ∃ v, evalM4 K A exEnv4 exE4 = .ok v ∧ Good4 v ∧ denote v = some (evalS4 exSpec4 exE4) :=
   c01e_eval4 K A exEnv4 exSpec4 exEnv4_good exEnv4_denote exE4 exE4_generic
 
+/-! ### scalar expressions over 4D vectors -/
+
+/-- properties of one 4D vector: the planar / spatial ones of its spatial part, and the temporal ones -/
+inductive UnS4
+  | sp (f : UnS)
+  | t | t2 | tau | tau2 | beta | gamma | rapidity
+
+def UnS4.name : UnS4 → String
+  | .sp f => f.name
+  | .t => "t" | .t2 => "t2" | .tau => "tau" | .tau2 => "tau2" | .beta => "beta" | .gamma => "gamma"
+  | .rapidity => "rapidity"
+
+inductive S4 : Type
+  | un (f : UnS4) (a : E4)
+  | bi (f : BinS) (a b : E4)
+
+noncomputable def evalMS4 (K : Consts ℝ) (A : Arith ℝ) (ρ : Nat → Vec ℝ) : S4 → Except Err (Res ℝ Prop)
+  | .un f a => unS (evalM4 K A ρ a) fun va => call evR K A f.name va []
+  | .bi f a b => binS (evalM4 K A ρ a) (evalM4 K A ρ b) fun va vb => call evR K A f.name va [.v vb]
+
+/-- specification on `(x, y, z, t)`; for the (forward time-like) generic vectors `τ = √(t² − |p|²)` -/
+noncomputable def uspec4 : UnS4 → ℝ → ℝ → ℝ → ℝ → ℝ
+  | .sp f, x, y, z, _ => uspec f x y z
+  | .t, _, _, _, t => t
+  | .t2, _, _, _, t => t ^ 2
+  | .tau, x, y, z, t => sqrt (t ^ 2 - (x ^ 2 + y ^ 2 + z ^ 2))
+  | .tau2, x, y, z, t => t ^ 2 - (x ^ 2 + y ^ 2 + z ^ 2)
+  | .beta, x, y, z, t => sqrt (x ^ 2 + y ^ 2 + z ^ 2) / t
+  | .gamma, x, y, z, t => t / sqrt (t ^ 2 - (x ^ 2 + y ^ 2 + z ^ 2))
+  | .rapidity, _, _, z, t => 1 / 2 * Real.log ((t + z) / (t - z))
+
+/-- `dot` is the Minkowski product; the angular methods act on the spatial parts -/
+noncomputable def bspec4 : BinS → ℝ → ℝ → ℝ → ℝ → ℝ → ℝ → ℝ → ℝ → ℝ
+  | .dot, x₁, y₁, z₁, t₁, x₂, y₂, z₂, t₂ => t₁ * t₂ - x₁ * x₂ - y₁ * y₂ - z₁ * z₂
+  | .deltaphi, x₁, y₁, z₁, _, x₂, y₂, z₂, _ => bspec .deltaphi x₁ y₁ z₁ x₂ y₂ z₂
+  | .deltaeta, x₁, y₁, z₁, _, x₂, y₂, z₂, _ => bspec .deltaeta x₁ y₁ z₁ x₂ y₂ z₂
+  | .deltaR2, x₁, y₁, z₁, _, x₂, y₂, z₂, _ => bspec .deltaR2 x₁ y₁ z₁ x₂ y₂ z₂
+  | .deltaR, x₁, y₁, z₁, _, x₂, y₂, z₂, _ => bspec .deltaR x₁ y₁ z₁ x₂ y₂ z₂
+  | .deltaangle, x₁, y₁, z₁, _, x₂, y₂, z₂, _ => bspec .deltaangle x₁ y₁ z₁ x₂ y₂ z₂
+
+noncomputable def on4s (f : ℝ → ℝ → ℝ → ℝ → ℝ) : List ℝ → ℝ
+  | [x, y, z, t] => f x y z t
+  | _ => 0
+
+noncomputable def on44 (f : ℝ → ℝ → ℝ → ℝ → ℝ → ℝ → ℝ → ℝ → ℝ) : List ℝ → List ℝ → ℝ
+  | [x₁, y₁, z₁, t₁], [x₂, y₂, z₂, t₂] => f x₁ y₁ z₁ t₁ x₂ y₂ z₂ t₂
+  | _, _ => 0
+
+noncomputable def evalSS4 (ρS : Nat → List ℝ) : S4 → ℝ
+  | .un f a => on4s (uspec4 f) (evalS4 ρS a)
+  | .bi f a b => on44 (bspec4 f) (evalS4 ρS a) (evalS4 ρS b)
+
+def PhiOK4 : List ℝ → Prop
+  | [x, y, _, _] => ¬ (y = 0 ∧ x < 0)
+  | _ => True
+
+def GenericS4 (ρS : Nat → List ℝ) : S4 → Prop
+  | .un f a => GenericAll4 ρS a ∧ (f = .sp .phi → PhiOK4 (evalS4 ρS a))
+  | .bi _ a b => GenericAll4 ρS a ∧ GenericAll4 ρS b
+
+/-- the storage facts of a good 4D vector with a generic denotation, in the `Stored3` and `Stored4` forms -/
+theorem facts4 {v : Vec ℝ} {x y z t : ℝ} (hv : Good4 v) (hd : denote v = some [x, y, z, t])
+    (hg : Generic4 [x, y, z, t]) :
+    Stored3 (fun k l a b c => 0 < rhoOf k a b ∧ Canon3 k l a b c ∧ TanOK l c ∧ SinOK l c ∧ 0 < mag2Of k l a b c) v ∧
+    Stored4 (fun k l tm a b c d => Canon3 k l a b c ∧ TanOK l c ∧ SinOK l c ∧ CanonTmp tm d) v := by
+  obtain ⟨be, mom, az, l, tm, a, b, c, d, rfl, hA, hL, hTm, hS⟩ := good4_cases hv
+  have e := denote_V4_eq hd
+  simp only [List.cons.injEq, and_true] at e
+  obtain ⟨rfl, rfl, rfl, rfl⟩ := e
+  obtain ⟨g1, g2, -, -⟩ := (generic4_iff _ _ _ _).1 hg
+  obtain ⟨hr, hc2, hT, hCL, hθ, hm⟩ := core3 hA hL hS g1 g2
+  exact ⟨⟨hr, ⟨hc2, hCL⟩, hT, hS, hm⟩, ⟨hc2, hCL⟩, hT, hS, canonTmp_of_inTmp hTm⟩
+
+theorem un4_case (K : Consts ℝ) (A : Arith ℝ) (f : UnS4) {va : Vec ℝ} {x y z t : ℝ} (ha : Good4 va)
+    (da : denote va = some [x, y, z, t]) (ga : Generic4 [x, y, z, t]) (hphi : f = .sp .phi → ¬ (y = 0 ∧ x < 0)) :
+    call evR K A f.name va [] = .ok (.scalar (uspec4 f x y z t)) := by
+  obtain ⟨⟨hr, hC3, hT', hS, hm⟩, hC3', hT4, hS4, hCt⟩ := facts4 ha da ga
+  obtain ⟨g1, g2, g3, g4⟩ := (generic4_iff _ _ _ _).1 ga
+  have hs : 0 < t ^ 2 - (x ^ 2 + y ^ 2 + z ^ 2) := sub_pos.mpr g3
+  cases f with
+  | sp f =>
+    cases f
+    · exact c01m_acc_x K A va ha.wf x y [z, t] da
+    · exact c01m_acc_y K A va ha.wf x y [z, t] da
+    · exact c01m_acc_z K A va ha.wf hT' x y z [t] da
+    · exact c01m_acc_rho K A va ha.wf hC3.1 x y [z, t] da
+    · exact c01m_acc_rho2 K A va ha.wf x y [z, t] da
+    · refine c01m_acc_phi K A va ha.wf ⟨hr, ?_⟩ x y [z, t] da
+      obtain ⟨be, mom, az, l, tm, a, b, c, d, rfl, hA, hL, hTm, hS⟩ := good4_cases ha
+      have e := denote_V4_eq da
+      simp only [List.cons.injEq, and_true] at e
+      obtain ⟨rfl, rfl, rfl, rfl⟩ := e
+      exact canonPhi_of hA hr (hphi rfl)
+    · exact c01m_acc_eta K A va ha.wf ⟨hr, hC3.2⟩ x y z [t] da
+    · exact c01m_acc_theta K A va ha.wf ⟨hC3, hm⟩ x y z [t] da
+    · exact c01m_acc_costheta K A va ha.wf ⟨hC3, hm⟩ x y z [t] da
+    · exact c01m_acc_cottheta K A va ha.wf ⟨hr, hT'⟩ x y z [t] da
+    · exact c01m_acc_mag K A va ha.wf ⟨hC3.1, hS⟩ x y z [t] da
+    · exact c01m_acc_mag2 K A va ha.wf hS x y z [t] da
+  | t => exact c09m_acc_t K A va ha.wf ⟨hS4, hCt⟩ x y z t da
+  | t2 => exact c09m_acc_t2 K A va ha.wf ⟨hC3'.2, hCt⟩ x y z t da
+  | tau => exact c09m_acc_tau_timelike K A va ha.wf ⟨hC3'.2, hCt⟩ x y z t da hs
+  | tau2 => exact c09m_acc_tau2 K A va ha.wf ⟨hC3'.2, hCt⟩ x y z t da
+  | beta => exact c09m_acc_beta K A va ha.wf ⟨hC3', hCt⟩ x y z t da g4.ne'
+  | gamma => exact c09m_acc_gamma K A va ha.wf ⟨hC3'.2, hCt⟩ x y z t da hs
+  | rapidity =>
+    refine c09m_acc_rapidity K A va ha.wf ⟨hC3'.2, hT4, hCt⟩ x y z t da ?_
+    rw [abs_lt]
+    constructor <;> nlinarith [sq_nonneg x, sq_nonneg y, sq_nonneg (t + z), sq_nonneg (t - z)]
+
+theorem bi4_case (K : Consts ℝ) (A : Arith ℝ) (f : BinS) {va vb : Vec ℝ} {x₁ y₁ z₁ t₁ x₂ y₂ z₂ t₂ : ℝ} (ha : Good4 va)
+    (hb : Good4 vb) (da : denote va = some [x₁, y₁, z₁, t₁]) (db : denote vb = some [x₂, y₂, z₂, t₂])
+    (ga : Generic4 [x₁, y₁, z₁, t₁]) (gb : Generic4 [x₂, y₂, z₂, t₂]) :
+    call evR K A f.name va [.v vb] = .ok (.scalar (bspec4 f x₁ y₁ z₁ t₁ x₂ y₂ z₂ t₂)) := by
+  obtain ⟨hTa, hSa, hCa, -, -, -⟩ := generic_storage_ok4 ha da ga
+  obtain ⟨hTb, hSb, hCb, -, -, -⟩ := generic_storage_ok4 hb db gb
+  obtain ⟨⟨hra, hC3a, hTa', hSa', hma⟩, -⟩ := facts4 ha da ga
+  obtain ⟨⟨hrb, hC3b, hTb', hSb', hmb⟩, -⟩ := facts4 hb db gb
+  cases f
+  · obtain ⟨p, q, hp, hq, hcall⟩ :=
+      c11m_dot K A va vb ha.wf hb.wf (by rw [ha.dim, hb.dim]) hTa hTb hSa hSb hCa hCb
+    rw [da] at hp; rw [db] at hq
+    cases hp; cases hq
+    exact hcall
+  · show call evR K A "deltaphi" va [.v vb] = _
+    rw [C04M.deltaphi_eval K A va vb ha.wf hb.wf, refine_spatial_deltaphi_key _ _ _ _ _ _ hra hrb,
+      ← (denote_planar ha.wf da).1, ← (denote_planar ha.wf da).2, ← (denote_planar hb.wf db).1,
+      ← (denote_planar hb.wf db).2]
+    rfl
+  · exact C04M.c04m_deltaeta K A va vb ha.wf hb.wf ⟨hra, hC3a.2⟩ ⟨hrb, hC3b.2⟩ _ _ _ _ _ _ [t₁] [t₂] da db
+  · exact C04M.c04m_deltaR2 K A va vb ha.wf hb.wf ⟨hra, hC3a.2⟩ ⟨hrb, hC3b.2⟩ _ _ _ _ _ _ [t₁] [t₂] da db
+  · exact C04M.c04m_deltaR K A va vb ha.wf hb.wf ⟨hra, hC3a.2⟩ ⟨hrb, hC3b.2⟩ _ _ _ _ _ _ [t₁] [t₂] da db
+  · exact C04M.c04m_deltaangle K A va vb ha.wf hb.wf ⟨hC3a.1, hTa', hSa'⟩ ⟨hC3b.1, hTb', hSb'⟩ _ _ _ _ _ _ [t₁] [t₂]
+      da db
+
+/-- **scalar expressions over 4D vectors**: the model returns the specified scalar -/
+theorem c01e_evalS4 (K : Consts ℝ) (A : Arith ℝ) (ρ : Nat → Vec ℝ) (ρS : Nat → List ℝ)
+    (hρ : ∀ i, Good4 (ρ i)) (hS : ∀ i, denote (ρ i) = some (ρS i)) (s : S4) (hg : GenericS4 ρS s) :
+    evalMS4 K A ρ s = .ok (.scalar (evalSS4 ρS s)) := by
+  cases s with
+  | un f a =>
+    obtain ⟨ga, hphi⟩ := hg
+    obtain ⟨va, ea, ha, da⟩ := c01e_eval4 K A ρ ρS hρ hS a ga
+    have g := genericAll4_self ga
+    obtain ⟨x, y, z, t, e, -⟩ := id g
+    rw [e] at da g hphi
+    simp only [evalMS4, evalSS4, ea, unS, e, on4s]
+    exact un4_case K A f ha da g hphi
+  | bi f a b =>
+    obtain ⟨ga, gb⟩ := hg
+    obtain ⟨va, ea, ha, da⟩ := c01e_eval4 K A ρ ρS hρ hS a ga
+    obtain ⟨vb, eb, hb, db⟩ := c01e_eval4 K A ρ ρS hρ hS b gb
+    have g₁ := genericAll4_self ga
+    have g₂ := genericAll4_self gb
+    obtain ⟨x₁, y₁, z₁, t₁, e₁, -⟩ := id g₁
+    obtain ⟨x₂, y₂, z₂, t₂, e₂, -⟩ := id g₂
+    rw [e₁] at da g₁
+    rw [e₂] at db g₂
+    simp only [evalMS4, evalSS4, ea, eb, binS, e₁, e₂, on44]
+    exact bi4_case K A f ha hb da db g₁ g₂
+
+/-- **C01 for scalar expressions over 4D vectors** -/
+theorem c01e_indepS4 (K : Consts ℝ) (A : Arith ℝ) (ρ₁ ρ₂ : Nat → Vec ℝ)
+    (h₁ : ∀ i, Good4 (ρ₁ i)) (h₂ : ∀ i, Good4 (ρ₂ i)) (hd : ∀ i, denote (ρ₁ i) = denote (ρ₂ i)) (s : S4)
+    (hg : GenericS4 (specEnv ρ₁) s) :
+    evalMS4 K A ρ₁ s = evalMS4 K A ρ₂ s ∧ evalMS4 K A ρ₁ s = .ok (.scalar (evalSS4 (specEnv ρ₁) s)) := by
+  have e₁ := c01e_evalS4 K A ρ₁ (specEnv ρ₁) h₁ (denote_specEnv4 h₁) s hg
+  have e₂ := c01e_evalS4 K A ρ₂ (specEnv ρ₁) h₂ (fun i => by rw [← hd i]; exact denote_specEnv4 h₁ i) s hg
+  exact ⟨by rw [e₁, e₂], e₁⟩
+
+/-! ## 14. ONE language for all dimensions, with the dimension-changing nodes
+
+`to_Vector2D`, `to_Vector3D` (projection), `to_Vector3D(z= / theta= / eta=)`, `to_Vector4D(t= / tau=)` (embeddings) and
+`boost_beta3` (4D by a 3D velocity) join the three languages above.  The model and the specification are both
+dimension-agnostic; well-dimensionedness of an expression is part of `GenericAllU` (a condition on the LENGTHS of the
+specified values). -/
+
+inductive E : Type
+  | var (i : Nat)
+  | add (a b : E)
+  | sub (a b : E)
+  | scale (k : ℝ) (a : E)
+  | unit (a : E)
+  | rotateZ (ang : ℝ) (a : E)
+  | rotateX (ang : ℝ) (a : E)
+  | rotateY (ang : ℝ) (a : E)
+  | cross (a b : E)
+  | boostX (β : ℝ) (a : E)
+  | boostY (β : ℝ) (a : E)
+  | boostZ (β : ℝ) (a : E)
+  | boost_p4 (a b : E)
+  | boost_beta3 (a b : E)
+  | conv2 (az : Az) (a : E)
+  | conv3 (az : Az) (lon : Lon) (a : E)
+  | conv4 (az : Az) (lon : Lon) (tmp : Tmp) (a : E)
+  | to2D (a : E)                          -- `to_Vector2D()`
+  | to3D (a : E)                          -- `to_Vector3D()` of a 3D / 4D vector
+  | to3D_kw (l : Lon) (s : ℝ) (a : E)     -- `to_Vector3D(z=s)` / `(theta=s)` / `(eta=s)` of a 2D vector
+  | to4D_kw (tm : Tmp) (s : ℝ) (a : E)    -- `to_Vector4D(t=s)` / `(tau=s)` of a 3D vector
+
+def lonKw : Lon → String | .z => "z" | .theta => "theta" | .eta => "eta"
+def tmpKw : Tmp → String | .t => "t" | .tau => "tau"
+
+noncomputable def evalMU (K : Consts ℝ) (A : Arith ℝ) (ρ : Nat → Vec ℝ) : E → Except Err (Vec ℝ)
+  | .var i => .ok (ρ i)
+  | .add a b => bin (evalMU K A ρ a) (evalMU K A ρ b) fun va vb => call evR K A "add" va [.v vb]
+  | .sub a b => bin (evalMU K A ρ a) (evalMU K A ρ b) fun va vb => call evR K A "subtract" va [.v vb]
+  | .scale k a => un (evalMU K A ρ a) fun va => call evR K A "scale" va [.sc k]
+  | .unit a => un (evalMU K A ρ a) fun va => call evR K A "unit" va []
+  | .rotateZ ang a => un (evalMU K A ρ a) fun va => call evR K A "rotateZ" va [.sc ang]
+  | .rotateX ang a => un (evalMU K A ρ a) fun va => call evR K A "rotateX" va [.sc ang]
+  | .rotateY ang a => un (evalMU K A ρ a) fun va => call evR K A "rotateY" va [.sc ang]
+  | .cross a b => bin (evalMU K A ρ a) (evalMU K A ρ b) fun va vb => call evR K A "cross" va [.v vb]
+  | .boostX β a => un (evalMU K A ρ a) fun va => call evR K A "boostX" va [.kw "beta" β]
+  | .boostY β a => un (evalMU K A ρ a) fun va => call evR K A "boostY" va [.kw "beta" β]
+  | .boostZ β a => un (evalMU K A ρ a) fun va => call evR K A "boostZ" va [.kw "beta" β]
+  | .boost_p4 a b => bin (evalMU K A ρ a) (evalMU K A ρ b) fun va vb => call evR K A "boost_p4" va [.v vb]
+  | .boost_beta3 a b => bin (evalMU K A ρ a) (evalMU K A ρ b) fun va vb => call evR K A "boost_beta3" va [.v vb]
+  | .conv2 az a => un (evalMU K A ρ a) fun va => call evR K A (convName2 az) va []
+  | .conv3 az l a => un (evalMU K A ρ a) fun va => call evR K A (convName az l) va []
+  | .conv4 az l tm a => un (evalMU K A ρ a) fun va => call evR K A (convName4 az l tm) va []
+  | .to2D a => un (evalMU K A ρ a) fun va => call evR K A "to_Vector2D" va []
+  | .to3D a => un (evalMU K A ρ a) fun va => call evR K A "to_Vector3D" va []
+  | .to3D_kw l s a => un (evalMU K A ρ a) fun va => call evR K A "to_Vector3D" va [.kw (lonKw l) s]
+  | .to4D_kw tm s a => un (evalMU K A ρ a) fun va => call evR K A "to_Vector4D" va [.kw (tmpKw tm) s]
+
+/-- `boost_beta3` on component lists: the Cartesian kernel `bβ3` of Props/C09 -/
+noncomputable def bβ3L : List ℝ → List ℝ → List ℝ
+  | [x, y, z, t], [bx, by', bz] => l4 (bβ3 (x, y, z, t) (bx, by', bz))
+  | p, _ => p
+
+/-- the `z` a longitudinal keyword value denotes, given the transverse length -/
+noncomputable def zKw : Lon → ℝ → ℝ → ℝ
+  | .z, _, s => s
+  | .theta, r, s => r * (cos s / sin s)
+  | .eta, r, s => r * sinh s
+
+/-- the `t` a temporal keyword value denotes, given `|p|²` -/
+noncomputable def tKw : Tmp → ℝ → ℝ → ℝ
+  | .t, _, s => s
+  | .tau, m, s => sqrt (s ^ 2 + m)
+
+noncomputable def embL (l : Lon) (s : ℝ) : List ℝ → List ℝ
+  | [x, y] => [x, y, zKw l (sqrt (x ^ 2 + y ^ 2)) s]
+  | p => p
+
+noncomputable def embT (tm : Tmp) (s : ℝ) : List ℝ → List ℝ
+  | [x, y, z] => [x, y, z, tKw tm (x ^ 2 + y ^ 2 + z ^ 2) s]
+  | p => p
+
+noncomputable def evalSU (ρS : Nat → List ℝ) : E → List ℝ
+  | .var i => ρS i
+  | .add a b => List.zipWith (· + ·) (evalSU ρS a) (evalSU ρS b)
+  | .sub a b => List.zipWith (· - ·) (evalSU ρS a) (evalSU ρS b)
+  | .scale k a => (evalSU ρS a).map (k * ·)
+  | .unit a => (evalSU ρS a).map (fun x => 1 / normL (evalSU ρS a) * x)
+  | .rotateZ ang a => onPlanar (rotZ2 ang) (evalSU ρS a)
+  | .rotateX ang a => onSpatial (rotX ang) (evalSU ρS a)
+  | .rotateY ang a => onSpatial (rotY ang) (evalSU ρS a)
+  | .cross a b => crossL (evalSU ρS a) (evalSU ρS b)
+  | .boostX β a => on4 (bXβ β) (evalSU ρS a)
+  | .boostY β a => on4 (bYβ β) (evalSU ρS a)
+  | .boostZ β a => on4 (bZβ β) (evalSU ρS a)
+  | .boost_p4 a b => bp4L (evalSU ρS a) (evalSU ρS b)
+  | .boost_beta3 a b => bβ3L (evalSU ρS a) (evalSU ρS b)
+  | .conv2 _ a => evalSU ρS a
+  | .conv3 _ _ a => evalSU ρS a
+  | .conv4 _ _ _ a => evalSU ρS a
+  | .to2D a => (evalSU ρS a).take 2
+  | .to3D a => (evalSU ρS a).take 3
+  | .to3D_kw l s a => embL l s (evalSU ρS a)
+  | .to4D_kw tm s a => embT tm s (evalSU ρS a)
+
+/-- generic in its own dimension (the dimension is the length of the component list) -/
+def Generic (p : List ℝ) : Prop := Generic2 p ∨ Generic3 p ∨ Generic4 p
+
+/-- a longitudinal keyword value in range: `0 < θ < π` -/
+def LonParamOK : Lon → ℝ → Prop
+  | .theta, s => 0 < s ∧ s < π
+  | _, _ => True
+
+/-- a temporal keyword value in range: `0 ≤ τ` -/
+def TmpParamOK : Tmp → ℝ → Prop
+  | .tau, s => 0 ≤ s
+  | _, _ => True
+
+/-- subluminal velocity -/
+def SubLum : List ℝ → Prop
+  | [bx, by', bz] => bx ^ 2 + by' ^ 2 + bz ^ 2 < 1
+  | _ => False
+
+/-- every subexpression's specified value is generic in its dimension, the expression is well-dimensioned (conditions on
+the lengths of the specified values), and the parameters are in range (`|β| < 1`, `0 < θ < π`, `0 ≤ τ`, `|β⃗| < 1`) -/
+def GenericAllU (ρS : Nat → List ℝ) : E → Prop
+  | .var i => Generic (ρS i)
+  | .add a b => (GenericAllU ρS a ∧ GenericAllU ρS b) ∧ (evalSU ρS a).length = (evalSU ρS b).length ∧
+      Generic (evalSU ρS (.add a b))
+  | .sub a b => (GenericAllU ρS a ∧ GenericAllU ρS b) ∧ (evalSU ρS a).length = (evalSU ρS b).length ∧
+      Generic (evalSU ρS (.sub a b))
+  | .scale k a => GenericAllU ρS a ∧ True ∧ Generic (evalSU ρS (.scale k a))
+  | .unit a => GenericAllU ρS a ∧ True ∧ Generic (evalSU ρS (.unit a))
+  | .rotateZ ang a => GenericAllU ρS a ∧ True ∧ Generic (evalSU ρS (.rotateZ ang a))
+  | .rotateX ang a => GenericAllU ρS a ∧ 3 ≤ (evalSU ρS a).length ∧ Generic (evalSU ρS (.rotateX ang a))
+  | .rotateY ang a => GenericAllU ρS a ∧ 3 ≤ (evalSU ρS a).length ∧ Generic (evalSU ρS (.rotateY ang a))
+  | .cross a b => (GenericAllU ρS a ∧ GenericAllU ρS b) ∧
+      ((evalSU ρS a).length = 3 ∧ (evalSU ρS b).length = 3) ∧ Generic (evalSU ρS (.cross a b))
+  | .boostX β a => GenericAllU ρS a ∧ ((evalSU ρS a).length = 4 ∧ |β| < 1) ∧ Generic (evalSU ρS (.boostX β a))
+  | .boostY β a => GenericAllU ρS a ∧ ((evalSU ρS a).length = 4 ∧ |β| < 1) ∧ Generic (evalSU ρS (.boostY β a))
+  | .boostZ β a => GenericAllU ρS a ∧ ((evalSU ρS a).length = 4 ∧ |β| < 1) ∧ Generic (evalSU ρS (.boostZ β a))
+  | .boost_p4 a b => (GenericAllU ρS a ∧ GenericAllU ρS b) ∧
+      ((evalSU ρS a).length = 4 ∧ (evalSU ρS b).length = 4) ∧ Generic (evalSU ρS (.boost_p4 a b))
+  | .boost_beta3 a b => (GenericAllU ρS a ∧ GenericAllU ρS b) ∧
+      ((evalSU ρS a).length = 4 ∧ SubLum (evalSU ρS b)) ∧ Generic (evalSU ρS (.boost_beta3 a b))
+  | .conv2 az a => GenericAllU ρS a ∧ (evalSU ρS a).length = 2 ∧ Generic (evalSU ρS (.conv2 az a))
+  | .conv3 az l a => GenericAllU ρS a ∧ (evalSU ρS a).length = 3 ∧ Generic (evalSU ρS (.conv3 az l a))
+  | .conv4 az l tm a => GenericAllU ρS a ∧ (evalSU ρS a).length = 4 ∧ Generic (evalSU ρS (.conv4 az l tm a))
+  | .to2D a => GenericAllU ρS a ∧ True ∧ Generic (evalSU ρS (.to2D a))
+  | .to3D a => GenericAllU ρS a ∧ 3 ≤ (evalSU ρS a).length ∧ Generic (evalSU ρS (.to3D a))
+  | .to3D_kw l s a => GenericAllU ρS a ∧ ((evalSU ρS a).length = 2 ∧ LonParamOK l s) ∧
+      Generic (evalSU ρS (.to3D_kw l s a))
+  | .to4D_kw tm s a => GenericAllU ρS a ∧ ((evalSU ρS a).length = 3 ∧ TmpParamOK tm s) ∧
+      Generic (evalSU ρS (.to4D_kw tm s a))
+
+theorem genericAllU_self {ρS : Nat → List ℝ} {e : E} (h : GenericAllU ρS e) : Generic (evalSU ρS e) := by
+  cases e <;> first | exact h | exact h.2.2
+
+/-- the dimension-free invariant -/
+def Good (v : Vec ℝ) : Prop := C01M.WFV v ∧ StoredInRange v ∧ SinOKAll v
+
+theorem generic_length {p : List ℝ} (h : Generic p) : p.length = 2 ∨ p.length = 3 ∨ p.length = 4 := by
+  rcases h with ⟨x, y, rfl, _⟩ | ⟨x, y, z, rfl, _⟩ | ⟨x, y, z, t, rfl, _⟩
+  · exact Or.inl rfl
+  · exact Or.inr (Or.inl rfl)
+  · exact Or.inr (Or.inr rfl)
+
+theorem generic_len2 {p : List ℝ} (h : Generic p) (hl : p.length = 2) : Generic2 p := by
+  rcases h with h | ⟨x, y, z, rfl, _⟩ | ⟨x, y, z, t, rfl, _⟩
+  · exact h
+  · simp at hl
+  · simp at hl
+
+theorem generic_len3 {p : List ℝ} (h : Generic p) (hl : p.length = 3) : Generic3 p := by
+  rcases h with ⟨x, y, rfl, _⟩ | h | ⟨x, y, z, t, rfl, _⟩
+  · simp at hl
+  · exact h
+  · simp at hl
+
+theorem generic_len4 {p : List ℝ} (h : Generic p) (hl : p.length = 4) : Generic4 p := by
+  rcases h with ⟨x, y, rfl, _⟩ | ⟨x, y, z, rfl, _⟩ | h
+  · simp at hl
+  · simp at hl
+  · exact h
+
+theorem dim_of_denote {v : Vec ℝ} {p : List ℝ} (hv : C01M.WFV v) (hd : denote v = some p) : v.ty.dim = p.length := by
+  rcases wfv_cases hv with ⟨be, mom, az, a, b, rfl⟩ | ⟨be, mom, az, l, a, b, c, rfl⟩ |
+    ⟨be, mom, az, l, t, a, b, c, d, rfl⟩
+  · rw [denote_V2_eq hd]; rfl
+  · rw [denote_V3_eq hd]; rfl
+  · rw [denote_V4_eq hd]; rfl
+
+theorem good_to2 {v : Vec ℝ} {p : List ℝ} (h : Good v) (hd : denote v = some p) (hl : p.length = 2) : Good2 v :=
+  ⟨h.1, by rw [dim_of_denote h.1 hd, hl], h.2.1⟩
+theorem good_to3 {v : Vec ℝ} {p : List ℝ} (h : Good v) (hd : denote v = some p) (hl : p.length = 3) : Good3 v :=
+  ⟨h.1, by rw [dim_of_denote h.1 hd, hl], h.2.1, h.2.2⟩
+theorem good_to4 {v : Vec ℝ} {p : List ℝ} (h : Good v) (hd : denote v = some p) (hl : p.length = 4) : Good4 v :=
+  ⟨h.1, by rw [dim_of_denote h.1 hd, hl], h.2.1, h.2.2⟩
+
+theorem good_of2 {v : Vec ℝ} (h : Good2 v) : Good v := by
+  obtain ⟨be, mom, az, a, b, rfl, -⟩ := good2_cases h
+  exact ⟨h.wf, h.rng, trivial⟩
+theorem good_of3 {v : Vec ℝ} (h : Good3 v) : Good v := ⟨h.wf, h.rng, h.sin⟩
+theorem good_of4 {v : Vec ℝ} (h : Good4 v) : Good v := ⟨h.wf, h.rng, h.sin⟩
+
+theorem onPlanar_length (f : ℝ × ℝ → ℝ × ℝ) : ∀ p : List ℝ, (onPlanar f p).length = p.length
+  | [] => rfl
+  | [_] => rfl
+  | _ :: _ :: _ => rfl
+
+theorem onSpatial_length (f : ℝ × ℝ × ℝ → ℝ × ℝ × ℝ) : ∀ p : List ℝ, (onSpatial f p).length = p.length
+  | [] => rfl
+  | [_] => rfl
+  | [_, _] => rfl
+  | _ :: _ :: _ :: _ => rfl
+
+theorem on4_length (f : ℝ × ℝ × ℝ × ℝ → ℝ × ℝ × ℝ × ℝ) : ∀ p : List ℝ, (on4 f p).length = p.length
+  | [] => rfl
+  | [_] => rfl
+  | [_, _] => rfl
+  | [_, _, _] => rfl
+  | [_, _, _, _] => rfl
+  | _ :: _ :: _ :: _ :: _ :: _ => rfl
+
+/-- lifting the per-dimension lemmas of a dimension-preserving unary node -/
+theorem un_lift (C : Vec ℝ → Except Err (Res ℝ Prop)) (F : List ℝ → List ℝ) {va : Vec ℝ} {pa : List ℝ}
+    (hlen : (F pa).length = pa.length)
+    (h2 : Good2 va → Generic2 pa → Generic2 (F pa) → ∃ r, C va = .ok (.vec r) ∧ Good2 r ∧ denote r = some (F pa))
+    (h3 : Good3 va → Generic3 pa → Generic3 (F pa) → ∃ r, C va = .ok (.vec r) ∧ Good3 r ∧ denote r = some (F pa))
+    (h4 : Good4 va → Generic4 pa → Generic4 (F pa) → ∃ r, C va = .ok (.vec r) ∧ Good4 r ∧ denote r = some (F pa))
+    (ha : Good va) (da : denote va = some pa) (ga : Generic pa) (gr : Generic (F pa)) :
+    ∃ r, C va = .ok (.vec r) ∧ Good r ∧ denote r = some (F pa) := by
+  rcases generic_length ga with hl | hl | hl
+  · obtain ⟨r, h1, hg, hd⟩ := h2 (good_to2 ha da hl) (generic_len2 ga hl) (generic_len2 gr (by rw [hlen, hl]))
+    exact ⟨r, h1, good_of2 hg, hd⟩
+  · obtain ⟨r, h1, hg, hd⟩ := h3 (good_to3 ha da hl) (generic_len3 ga hl) (generic_len3 gr (by rw [hlen, hl]))
+    exact ⟨r, h1, good_of3 hg, hd⟩
+  · obtain ⟨r, h1, hg, hd⟩ := h4 (good_to4 ha da hl) (generic_len4 ga hl) (generic_len4 gr (by rw [hlen, hl]))
+    exact ⟨r, h1, good_of4 hg, hd⟩
+
+/-- the same for a binary node on operands of equal dimension -/
+theorem bin_lift (C : Vec ℝ → Vec ℝ → Except Err (Res ℝ Prop)) (F : List ℝ → List ℝ → List ℝ) {va vb : Vec ℝ}
+    {pa pb : List ℝ} (hl : pa.length = pb.length) (hlen : (F pa pb).length = pa.length)
+    (h2 : Good2 va → Good2 vb → Generic2 pa → Generic2 pb → Generic2 (F pa pb) →
+      ∃ r, C va vb = .ok (.vec r) ∧ Good2 r ∧ denote r = some (F pa pb))
+    (h3 : Good3 va → Good3 vb → Generic3 pa → Generic3 pb → Generic3 (F pa pb) →
+      ∃ r, C va vb = .ok (.vec r) ∧ Good3 r ∧ denote r = some (F pa pb))
+    (h4 : Good4 va → Good4 vb → Generic4 pa → Generic4 pb → Generic4 (F pa pb) →
+      ∃ r, C va vb = .ok (.vec r) ∧ Good4 r ∧ denote r = some (F pa pb))
+    (ha : Good va) (hb : Good vb) (da : denote va = some pa) (db : denote vb = some pb) (ga : Generic pa)
+    (gb : Generic pb) (gr : Generic (F pa pb)) :
+    ∃ r, C va vb = .ok (.vec r) ∧ Good r ∧ denote r = some (F pa pb) := by
+  rcases generic_length ga with hla | hla | hla
+  · have hlb : pb.length = 2 := by rw [← hl, hla]
+    obtain ⟨r, h1, hg, hd⟩ := h2 (good_to2 ha da hla) (good_to2 hb db hlb) (generic_len2 ga hla) (generic_len2 gb hlb)
+      (generic_len2 gr (by rw [hlen, hla]))
+    exact ⟨r, h1, good_of2 hg, hd⟩
+  · have hlb : pb.length = 3 := by rw [← hl, hla]
+    obtain ⟨r, h1, hg, hd⟩ := h3 (good_to3 ha da hla) (good_to3 hb db hlb) (generic_len3 ga hla) (generic_len3 gb hlb)
+      (generic_len3 gr (by rw [hlen, hla]))
+    exact ⟨r, h1, good_of3 hg, hd⟩
+  · have hlb : pb.length = 4 := by rw [← hl, hla]
+    obtain ⟨r, h1, hg, hd⟩ := h4 (good_to4 ha da hla) (good_to4 hb db hlb) (generic_len4 ga hla) (generic_len4 gb hlb)
+      (generic_len4 gr (by rw [hlen, hla]))
+    exact ⟨r, h1, good_of4 hg, hd⟩
+
+theorem un_ok {x : Except Err (Vec ℝ)} {f : Vec ℝ → Except Err (Res ℝ Prop)} {v r : Vec ℝ} (ea : x = .ok v)
+    (hc : f v = .ok (.vec r)) : un x f = .ok r := by
+  rw [ea]; simp only [un, hc, vecOf]
+
+theorem bin_ok {x y : Except Err (Vec ℝ)} {f : Vec ℝ → Vec ℝ → Except Err (Res ℝ Prop)} {v w r : Vec ℝ}
+    (ea : x = .ok v) (eb : y = .ok w) (hc : f v w = .ok (.vec r)) : bin x y f = .ok r := by
+  rw [ea, eb]; simp only [bin, hc, vecOf]
+
+/-! #### the dimension-changing nodes -/
+
+theorem boost_beta3_case (K : Consts ℝ) (A : Arith ℝ) {va vb : Vec ℝ} {pa pb : List ℝ} (ha : Good4 va) (hb : Good3 vb)
+    (da : denote va = some pa) (db : denote vb = some pb) (ga : Generic4 pa) (gb : Generic3 pb) (hsub : SubLum pb)
+    (gr : Generic4 (bβ3L pa pb)) :
+    ∃ r, call evR K A "boost_beta3" va [.v vb] = .ok (.vec r) ∧ Good4 r ∧ denote r = some (bβ3L pa pb) := by
+  obtain ⟨-, -, -, -, -, hSa⟩ := generic_storage_ok4 ha da ga
+  obtain ⟨-, -, -, -, -, -, -, hTb, -, -⟩ := generic_storage_ok hb db gb
+  obtain ⟨x, y, z, t, rfl, -, -, -, -⟩ := id ga
+  obtain ⟨bx, by', bz, rfl, -, -⟩ := id gb
+  obtain ⟨w, hcall, -, -, hden⟩ := c09m_boost_beta3 K A va vb ha.wf ha.dim hb.wf hb.dim hSa hTb x y z t bx by' bz da db
+    (fun _ => hsub)
+  refine ⟨w, hcall, ?_, hden⟩
+  obtain ⟨be1, mom1, az1, l1, t1, a0, a1, a2, a3, rfl, hA1, hL1, hT1, hS1⟩ := good4_cases ha
+  obtain ⟨be2, mom2, az2, l2, b0, b1, b2, rfl, hA2, hL2, hS2⟩ := good3_cases hb
+  have he := boost_beta3_eval K A be1 mom1 az1 l1 t1 a0 a1 a2 a3 be2 mom2 az2 l2 b0 b1 b2
+  rw [hcall] at he
+  have := vec_inj he
+  subst this
+  have hc := c13c_lorentz_boost_beta3 az1 l1 t1 az2 l2 a0 a1 a2 a3 b0 b1 b2 hT1
+  rw [c13c_lorentz_boost_beta3_ret] at hc
+  obtain ⟨h1, h2, h3⟩ := outCanon4_parts hc
+  exact good4_result (be := C01M.hbe be1 be2) (mom := mom1 || mom2) h1 h2 h3 hden gr
+
+/-- `to_Vector2D()`: the stored azimuthal coordinates are kept — no hypothesis beyond the invariant -/
+theorem to2D_case (K : Consts ℝ) (A : Arith ℝ) {va : Vec ℝ} {pa : List ℝ} (ha : Good va) (da : denote va = some pa) :
+    ∃ r, call evR K A "to_Vector2D" va [] = .ok (.vec r) ∧ Good2 r ∧ denote r = some (pa.take 2) := by
+  obtain ⟨hv, hr, hs⟩ := ha
+  rcases wfv_cases hv with ⟨be, mom, az, a, b, rfl⟩ | ⟨be, mom, az, l, a, b, c, rfl⟩ |
+    ⟨be, mom, az, l, t, a, b, c, d, rfl⟩
+  · rw [denote_V2_eq da]
+    exact ⟨C11M.V2 be mom az a b, rfl, good2_mk _ _ _ _ _ hr.1, rfl⟩
+  · rw [denote_V3_eq da]
+    exact ⟨C11M.V2 be mom az a b, rfl, good2_mk _ _ _ _ _ hr.1, rfl⟩
+  · rw [denote_V4_eq da]
+    exact ⟨C11M.V2 be mom az a b, rfl, good2_mk _ _ _ _ _ hr.1, rfl⟩
+
+/-- `to_Vector3D()` of a 3D / 4D vector: the stored azimuthal and longitudinal coordinates are kept -/
+theorem to3D_case (K : Consts ℝ) (A : Arith ℝ) {va : Vec ℝ} {pa : List ℝ} (ha : Good va) (da : denote va = some pa)
+    (hl : 3 ≤ pa.length) :
+    ∃ r, call evR K A "to_Vector3D" va [] = .ok (.vec r) ∧ Good3 r ∧ denote r = some (pa.take 3) := by
+  obtain ⟨hv, hr, hs⟩ := ha
+  rcases wfv_cases hv with ⟨be, mom, az, a, b, rfl⟩ | ⟨be, mom, az, l, a, b, c, rfl⟩ |
+    ⟨be, mom, az, l, t, a, b, c, d, rfl⟩
+  · rw [denote_V2_eq da] at hl; simp at hl
+  · rw [denote_V3_eq da]
+    exact ⟨C11M.V3 be mom az l a b c, rfl, good3_mk _ _ _ _ _ _ _ hr.1 hr.2.1 hs, rfl⟩
+  · rw [denote_V4_eq da]
+    exact ⟨C11M.V3 be mom az l a b c, rfl, good3_mk _ _ _ _ _ _ _ hr.1 hr.2.1 hs, rfl⟩
+
+/-- `to_Vector3D(z=s)` / `(theta=s)` / `(eta=s)` of a 2D vector: the keyword value is STORED as given (it must be in range:
+`0 < θ < π`) and denotes `z = s`, `ρ cot s`, `ρ sinh s` -/
+theorem to3D_kw_case (K : Consts ℝ) (A : Arith ℝ) (l : Lon) (s : ℝ) (hs : LonParamOK l s) {va : Vec ℝ} {pa : List ℝ}
+    (ha : Good2 va) (da : denote va = some pa) :
+    ∃ r, call evR K A "to_Vector3D" va [.kw (lonKw l) s] = .ok (.vec r) ∧ Good3 r ∧ denote r = some (embL l s pa) := by
+  obtain ⟨be, mom, az, a, b, rfl, hA⟩ := good2_cases ha
+  have e := denote_V2_eq da
+  subst e
+  have hρ := rhoOf_eq_sqrt (canon2_of_azOK hA)
+  have hcall : call evR K A "to_Vector3D" (C11M.V2 be mom az a b) [.kw (lonKw l) s] =
+      .ok (.vec (C11M.V3 be mom az l a b s)) := by
+    cases l
+    · exact to_Vector3D_kw_eval K A be mom az a b s ("z", .z) (by simp)
+    · exact to_Vector3D_kw_eval K A be mom az a b s ("theta", .theta) (by simp)
+    · exact to_Vector3D_kw_eval K A be mom az a b s ("eta", .eta) (by simp)
+  refine ⟨_, hcall, ?_, ?_⟩
+  · refine good3_mk _ _ _ _ _ _ _ hA ?_ ?_
+    · cases l
+      · trivial
+      · exact ⟨hs.1.le, hs.2.le⟩
+      · trivial
+    · cases l
+      · trivial
+      · exact (sin_pos_of_pos_of_lt_pi hs.1 hs.2).ne'
+      · trivial
+  · cases l <;> simp only [denote, embL, zKw, zOf, hρ]
+
+/-- `to_Vector4D(t=s)` / `(tau=s)` of a 3D vector (`0 ≤ τ`) -/
+theorem to4D_kw_case (K : Consts ℝ) (A : Arith ℝ) (tm : Tmp) (s : ℝ) (hs : TmpParamOK tm s) {va : Vec ℝ} {pa : List ℝ}
+    (ha : Good3 va) (da : denote va = some pa) :
+    ∃ r, call evR K A "to_Vector4D" va [.kw (tmpKw tm) s] = .ok (.vec r) ∧ Good4 r ∧ denote r = some (embT tm s pa) := by
+  obtain ⟨be, mom, az, l, a, b, c, rfl, hA, hL, hS⟩ := good3_cases ha
+  have e := denote_V3_eq da
+  subst e
+  have hcall : call evR K A "to_Vector4D" (C11M.V3 be mom az l a b c) [.kw (tmpKw tm) s] =
+      .ok (.vec (C11M.V4 be mom az l tm a b c s)) := by
+    cases tm
+    · exact to_Vector4D_kw_eval K A be mom az l a b c s ("t", .t) (by simp)
+    · exact to_Vector4D_kw_eval K A be mom az l a b c s ("tau", .tau) (by simp)
+  refine ⟨_, hcall, ?_, ?_⟩
+  · refine good4_mk _ _ _ _ _ _ _ _ _ hA hL ?_ hS
+    cases tm
+    · trivial
+    · exact hs
+  · cases tm <;> rfl
+
+/-! #### MAIN THEOREM, all dimensions -/
+
+theorem c01e_eval (K : Consts ℝ) (A : Arith ℝ) (ρ : Nat → Vec ℝ) (ρS : Nat → List ℝ)
+    (hρ : ∀ i, Good (ρ i)) (hS : ∀ i, denote (ρ i) = some (ρS i)) (e : E) (hg : GenericAllU ρS e) :
+    ∃ v, evalMU K A ρ e = .ok v ∧ Good v ∧ denote v = some (evalSU ρS e) := by
+  induction e with
+  | var i => exact ⟨ρ i, rfl, hρ i, hS i⟩
+  | add a b iha ihb =>
+    obtain ⟨⟨ga, gb⟩, hl, gr⟩ := hg
+    obtain ⟨va, ea, ha, da⟩ := iha ga
+    obtain ⟨vb, eb, hb, db⟩ := ihb gb
+    obtain ⟨r, hc, hr, hd⟩ := bin_lift (fun v w => call evR K A "add" v [.v w]) (List.zipWith (· + ·)) hl
+      (by rw [List.length_zipWith, hl, min_self])
+      (fun h2 h2' _ _ _ => add2_case K A h2 h2' da db) (fun h3 h3' g g' g'' => add_case K A h3 h3' da db g g' g'')
+      (fun h4 h4' g g' g'' => add4_case K A h4 h4' da db g g' g'') ha hb da db (genericAllU_self ga)
+      (genericAllU_self gb) gr
+    exact ⟨r, bin_ok ea eb hc, hr, hd⟩
+  | sub a b iha ihb =>
+    obtain ⟨⟨ga, gb⟩, hl, gr⟩ := hg
+    obtain ⟨va, ea, ha, da⟩ := iha ga
+    obtain ⟨vb, eb, hb, db⟩ := ihb gb
+    obtain ⟨r, hc, hr, hd⟩ := bin_lift (fun v w => call evR K A "subtract" v [.v w]) (List.zipWith (· - ·)) hl
+      (by rw [List.length_zipWith, hl, min_self])
+      (fun h2 h2' _ _ _ => sub2_case K A h2 h2' da db) (fun h3 h3' g g' g'' => sub_case K A h3 h3' da db g g' g'')
+      (fun h4 h4' g g' g'' => sub4_case K A h4 h4' da db g g' g'') ha hb da db (genericAllU_self ga)
+      (genericAllU_self gb) gr
+    exact ⟨r, bin_ok ea eb hc, hr, hd⟩
+  | scale k a iha =>
+    obtain ⟨ga, -, gr⟩ := hg
+    obtain ⟨va, ea, ha, da⟩ := iha ga
+    obtain ⟨r, hc, hr, hd⟩ := un_lift (fun v => call evR K A "scale" v [.sc k]) (fun p => p.map (k * ·))
+      (List.length_map _)
+      (fun h2 _ _ => scale2_case K A k h2 da) (fun h3 g g' => scale_case K A k h3 da g g')
+      (fun h4 g g' => scale4_case K A k h4 da g g') ha da (genericAllU_self ga) gr
+    exact ⟨r, un_ok ea hc, hr, hd⟩
+  | unit a iha =>
+    obtain ⟨ga, -, gr⟩ := hg
+    obtain ⟨va, ea, ha, da⟩ := iha ga
+    obtain ⟨r, hc, hr, hd⟩ := un_lift (fun v => call evR K A "unit" v []) (fun p => p.map (fun x => 1 / normL p * x))
+      (List.length_map _)
+      (fun h2 g _ => unit2_case K A h2 da g) (fun h3 g g' => unit_case K A h3 da g g')
+      (fun h4 g g' => unit4_case K A h4 da g g') ha da (genericAllU_self ga) gr
+    exact ⟨r, un_ok ea hc, hr, hd⟩
+  | rotateZ ang a iha =>
+    obtain ⟨ga, -, gr⟩ := hg
+    obtain ⟨va, ea, ha, da⟩ := iha ga
+    obtain ⟨r, hc, hr, hd⟩ := un_lift (fun v => call evR K A "rotateZ" v [.sc ang]) (onPlanar (rotZ2 ang))
+      (onPlanar_length _ _)
+      (fun h2 _ _ => rotateZ2_case K A ang h2 da)
+      (fun h3 g g' => by
+        obtain ⟨x, y, z, e, -⟩ := id g
+        rw [e] at da g g' ⊢
+        exact rotateZ_case K A ang h3 da g g')
+      (fun h4 g g' => by
+        obtain ⟨x, y, z, t, e, -⟩ := id g
+        rw [e] at da g g' ⊢
+        exact rotateZ4_case K A ang h4 da g g') ha da (genericAllU_self ga) gr
+    exact ⟨r, un_ok ea hc, hr, hd⟩
+  | rotateX ang a iha =>
+    obtain ⟨ga, hl, gr⟩ := hg
+    obtain ⟨va, ea, ha, da⟩ := iha ga
+    obtain ⟨r, hc, hr, hd⟩ := un_lift (fun v => call evR K A "rotateX" v [.sc ang]) (onSpatial (rotX ang))
+      (onSpatial_length _ _)
+      (fun _ g _ => by obtain ⟨x, y, e, -⟩ := g; rw [e] at hl; simp at hl)
+      (fun h3 g g' => rotateX_case K A ang h3 da g g') (fun h4 g g' => rotateX4_case K A ang h4 da g g')
+      ha da (genericAllU_self ga) gr
+    exact ⟨r, un_ok ea hc, hr, hd⟩
+  | rotateY ang a iha =>
+    obtain ⟨ga, hl, gr⟩ := hg
+    obtain ⟨va, ea, ha, da⟩ := iha ga
+    obtain ⟨r, hc, hr, hd⟩ := un_lift (fun v => call evR K A "rotateY" v [.sc ang]) (onSpatial (rotY ang))
+      (onSpatial_length _ _)
+      (fun _ g _ => by obtain ⟨x, y, e, -⟩ := g; rw [e] at hl; simp at hl)
+      (fun h3 g g' => rotateY_case K A ang h3 da g g') (fun h4 g g' => rotateY4_case K A ang h4 da g g')
+      ha da (genericAllU_self ga) gr
+    exact ⟨r, un_ok ea hc, hr, hd⟩
+  | cross a b iha ihb =>
+    obtain ⟨⟨ga, gb⟩, ⟨hla, hlb⟩, gr⟩ := hg
+    obtain ⟨va, ea, ha, da⟩ := iha ga
+    obtain ⟨vb, eb, hb, db⟩ := ihb gb
+    have g₁ := generic_len3 (genericAllU_self ga) hla
+    have g₂ := generic_len3 (genericAllU_self gb) hlb
+    have g₃ : Generic3 (crossL (evalSU ρS a) (evalSU ρS b)) := by
+      obtain ⟨x₁, y₁, z₁, e₁, -⟩ := id g₁
+      obtain ⟨x₂, y₂, z₂, e₂, -⟩ := id g₂
+      refine generic_len3 gr ?_
+      show (crossL (evalSU ρS a) (evalSU ρS b)).length = 3
+      rw [e₁, e₂]; rfl
+    obtain ⟨r, hc, hr, hd⟩ := cross_case K A (good_to3 ha da hla) (good_to3 hb db hlb) da db g₁ g₂ g₃
+    exact ⟨r, bin_ok ea eb hc, good_of3 hr, hd⟩
+  | boostX β a iha =>
+    obtain ⟨ga, ⟨hl, hβ⟩, gr⟩ := hg
+    obtain ⟨va, ea, ha, da⟩ := iha ga
+    obtain ⟨r, hc, hr, hd⟩ := boostX4_case K A β hβ (good_to4 ha da hl) da (generic_len4 (genericAllU_self ga) hl)
+      (generic_len4 gr (by show (on4 _ _).length = 4; rw [on4_length, hl]))
+    exact ⟨r, un_ok ea hc, good_of4 hr, hd⟩
+  | boostY β a iha =>
+    obtain ⟨ga, ⟨hl, hβ⟩, gr⟩ := hg
+    obtain ⟨va, ea, ha, da⟩ := iha ga
+    obtain ⟨r, hc, hr, hd⟩ := boostY4_case K A β hβ (good_to4 ha da hl) da (generic_len4 (genericAllU_self ga) hl)
+      (generic_len4 gr (by show (on4 _ _).length = 4; rw [on4_length, hl]))
+    exact ⟨r, un_ok ea hc, good_of4 hr, hd⟩
+  | boostZ β a iha =>
+    obtain ⟨ga, ⟨hl, hβ⟩, gr⟩ := hg
+    obtain ⟨va, ea, ha, da⟩ := iha ga
+    obtain ⟨r, hc, hr, hd⟩ := boostZ4_case K A β hβ (good_to4 ha da hl) da (generic_len4 (genericAllU_self ga) hl)
+      (generic_len4 gr (by show (on4 _ _).length = 4; rw [on4_length, hl]))
+    exact ⟨r, un_ok ea hc, good_of4 hr, hd⟩
+  | boost_p4 a b iha ihb =>
+    obtain ⟨⟨ga, gb⟩, ⟨hla, hlb⟩, gr⟩ := hg
+    obtain ⟨va, ea, ha, da⟩ := iha ga
+    obtain ⟨vb, eb, hb, db⟩ := ihb gb
+    have g₁ := generic_len4 (genericAllU_self ga) hla
+    have g₂ := generic_len4 (genericAllU_self gb) hlb
+    have g₃ : Generic4 (bp4L (evalSU ρS a) (evalSU ρS b)) := by
+      obtain ⟨x₁, y₁, z₁, t₁, e₁, -⟩ := id g₁
+      obtain ⟨x₂, y₂, z₂, t₂, e₂, -⟩ := id g₂
+      refine generic_len4 gr ?_
+      show (bp4L (evalSU ρS a) (evalSU ρS b)).length = 4
+      rw [e₁, e₂]; rfl
+    obtain ⟨r, hc, hr, hd⟩ := boost_p4_case K A (good_to4 ha da hla) (good_to4 hb db hlb) da db g₁ g₂ g₃
+    exact ⟨r, bin_ok ea eb hc, good_of4 hr, hd⟩
+  | boost_beta3 a b iha ihb =>
+    obtain ⟨⟨ga, gb⟩, ⟨hla, hsub⟩, gr⟩ := hg
+    obtain ⟨va, ea, ha, da⟩ := iha ga
+    obtain ⟨vb, eb, hb, db⟩ := ihb gb
+    have hlb : (evalSU ρS b).length = 3 := by
+      revert hsub
+      generalize evalSU ρS b = q
+      intro hsub
+      match q, hsub with
+      | [_, _, _], _ => rfl
+    have g₁ := generic_len4 (genericAllU_self ga) hla
+    have g₂ := generic_len3 (genericAllU_self gb) hlb
+    have g₃ : Generic4 (bβ3L (evalSU ρS a) (evalSU ρS b)) := by
+      obtain ⟨x₁, y₁, z₁, t₁, e₁, -⟩ := id g₁
+      obtain ⟨x₂, y₂, z₂, e₂, -⟩ := id g₂
+      refine generic_len4 gr ?_
+      show (bβ3L (evalSU ρS a) (evalSU ρS b)).length = 4
+      rw [e₁, e₂]; rfl
+    obtain ⟨r, hc, hr, hd⟩ := boost_beta3_case K A (good_to4 ha da hla) (good_to3 hb db hlb) da db g₁ g₂ hsub g₃
+    exact ⟨r, bin_ok ea eb hc, good_of4 hr, hd⟩
+  | conv2 az a iha =>
+    obtain ⟨ga, hl, gr⟩ := hg
+    obtain ⟨va, ea, ha, da⟩ := iha ga
+    obtain ⟨r, hc, hr, hd⟩ := conv2_case K A az (good_to2 ha da hl) da
+    exact ⟨r, un_ok ea hc, good_of2 hr, hd⟩
+  | conv3 az l a iha =>
+    obtain ⟨ga, hl, gr⟩ := hg
+    obtain ⟨va, ea, ha, da⟩ := iha ga
+    obtain ⟨r, hc, hr, hd⟩ := conv_case K A az l (good_to3 ha da hl) da (generic_len3 (genericAllU_self ga) hl)
+    exact ⟨r, un_ok ea hc, good_of3 hr, hd⟩
+  | conv4 az l tm a iha =>
+    obtain ⟨ga, hl, gr⟩ := hg
+    obtain ⟨va, ea, ha, da⟩ := iha ga
+    obtain ⟨r, hc, hr, hd⟩ := conv4_case K A az l tm (good_to4 ha da hl) da (generic_len4 (genericAllU_self ga) hl)
+    exact ⟨r, un_ok ea hc, good_of4 hr, hd⟩
+  | to2D a iha =>
+    obtain ⟨ga, -, gr⟩ := hg
+    obtain ⟨va, ea, ha, da⟩ := iha ga
+    obtain ⟨r, hc, hr, hd⟩ := to2D_case K A ha da
+    exact ⟨r, un_ok ea hc, good_of2 hr, hd⟩
+  | to3D a iha =>
+    obtain ⟨ga, hl, gr⟩ := hg
+    obtain ⟨va, ea, ha, da⟩ := iha ga
+    obtain ⟨r, hc, hr, hd⟩ := to3D_case K A ha da hl
+    exact ⟨r, un_ok ea hc, good_of3 hr, hd⟩
+  | to3D_kw l s a iha =>
+    obtain ⟨ga, ⟨hl, hs⟩, gr⟩ := hg
+    obtain ⟨va, ea, ha, da⟩ := iha ga
+    obtain ⟨r, hc, hr, hd⟩ := to3D_kw_case K A l s hs (good_to2 ha da hl) da
+    exact ⟨r, un_ok ea hc, good_of3 hr, hd⟩
+  | to4D_kw tm s a iha =>
+    obtain ⟨ga, ⟨hl, hs⟩, gr⟩ := hg
+    obtain ⟨va, ea, ha, da⟩ := iha ga
+    obtain ⟨r, hc, hr, hd⟩ := to4D_kw_case K A tm s hs (good_to3 ha da hl) da
+    exact ⟨r, un_ok ea hc, good_of4 hr, hd⟩
+
+theorem good_denote {v : Vec ℝ} (h : Good v) : ∃ p, denote v = some p := by
+  rcases wfv_cases h.1 with ⟨be, mom, az, a, b, rfl⟩ | ⟨be, mom, az, l, a, b, c, rfl⟩ |
+    ⟨be, mom, az, l, t, a, b, c, d, rfl⟩ <;> exact ⟨_, rfl⟩
+
+theorem denote_specEnvU {ρ : Nat → Vec ℝ} (hρ : ∀ i, Good (ρ i)) (i : Nat) : denote (ρ i) = some (specEnv ρ i) := by
+  obtain ⟨p, hp⟩ := good_denote (hρ i)
+  simp only [specEnv, hp, Option.getD_some]
+
+/-- **C01 for whole computations, all dimensions**: variables of any dimension in any of the 2 / 6 / 12 storages, any
+flavors and backends -/
+theorem c01e_indep (K : Consts ℝ) (A : Arith ℝ) (ρ₁ ρ₂ : Nat → Vec ℝ)
+    (h₁ : ∀ i, Good (ρ₁ i)) (h₂ : ∀ i, Good (ρ₂ i)) (hd : ∀ i, denote (ρ₁ i) = denote (ρ₂ i)) (e : E)
+    (hg : GenericAllU (specEnv ρ₁) e) :
+    ∃ v₁ v₂, evalMU K A ρ₁ e = .ok v₁ ∧ evalMU K A ρ₂ e = .ok v₂ ∧ denote v₁ = denote v₂ ∧
+      denote v₁ = some (evalSU (specEnv ρ₁) e) := by
+  obtain ⟨v₁, e₁, -, d₁⟩ := c01e_eval K A ρ₁ (specEnv ρ₁) h₁ (denote_specEnvU h₁) e hg
+  obtain ⟨v₂, e₂, -, d₂⟩ :=
+    c01e_eval K A ρ₂ (specEnv ρ₁) h₂ (fun i => by rw [← hd i]; exact denote_specEnvU h₁ i) e hg
+  exact ⟨v₁, v₂, e₁, e₂, by rw [d₁, d₂], d₁⟩
+
+theorem generic_iff2 (x y : ℝ) : Generic [x, y] ↔ 0 < x ^ 2 + y ^ 2 := by
+  constructor
+  · intro h; exact (generic2_iff _ _).1 (generic_len2 h rfl)
+  · intro h; exact Or.inl ((generic2_iff _ _).2 h)
+
+theorem generic_iff3 (x y z : ℝ) : Generic [x, y, z] ↔ 0 < x ^ 2 + y ^ 2 ∧ z ≠ 0 := by
+  constructor
+  · intro h; exact (generic3_iff _ _ _).1 (generic_len3 h rfl)
+  · intro h; exact Or.inr (Or.inl ((generic3_iff _ _ _).2 h))
+
+theorem generic_iff4 (x y z t : ℝ) :
+    Generic [x, y, z, t] ↔ 0 < x ^ 2 + y ^ 2 ∧ z ≠ 0 ∧ x ^ 2 + y ^ 2 + z ^ 2 < t ^ 2 ∧ 0 < t := by
+  constructor
+  · intro h; exact (generic4_iff _ _ _ _).1 (generic_len4 h rfl)
+  · intro h; exact Or.inr (Or.inr ((generic4_iff _ _ _ _).2 h))
+
+/-! #### non-vacuity: a depth-5 expression over a 4D, a 3D and a 2D variable -/
+
+/-- `v₀ = (x, y, z, t) = (1, 1, 1, 3)` (4D), `v₁ = (x, y, θ) = (1, 0, π/4)` (3D, the point `(1, 0, 1)`),
+`v₂ = (ρ, φ) = (2, π/2)` (2D, the point `(0, 2)`) -/
+noncomputable def exEnvU : Nat → Vec ℝ
+  | 0 => C11M.V4 .obj false .xy .z .t 1 1 1 3
+  | 1 => C11M.V3 .np true .xy .theta 1 0 (π / 4)
+  | _ => C11M.V2 .obj true .rhophi 2 (π / 2)
+
+def exSpecU : Nat → List ℝ
+  | 0 => [1, 1, 1, 3]
+  | 1 => [1, 0, 1]
+  | _ => [0, 2]
+
+/-- `to_Vector4D(t=4)` of `v₀.to_Vector3D() + v₁ × v₂.to_Vector3D(eta=arsinh 1)` -/
+noncomputable def exEU : E :=
+  .to4D_kw .t 4 (.add (.to3D (.var 0)) (.cross (.var 1) (.to3D_kw .eta (arsinh 1) (.var 2))))
+
+theorem exEnvU_good : ∀ i, Good (exEnvU i) := by
+  intro i
+  have hpi := pi_pos
+  match i with
+  | 0 => exact good_of4 (good4_mk _ _ _ _ _ _ _ _ _ trivial trivial trivial trivial)
+  | 1 =>
+    refine good_of3 (good3_mk _ _ _ _ _ _ _ trivial ⟨by positivity, by linarith⟩ ?_)
+    show sin (π / 4) ≠ 0
+    rw [sin_pi_div_four]; positivity
+  | (n + 2) => exact good_of2 (good2_mk _ _ _ _ _ ⟨by norm_num, by linarith, by linarith⟩)
+
+theorem exEnvU_denote : ∀ i, denote (exEnvU i) = some (exSpecU i) := by
+  intro i
+  match i with
+  | 0 => rfl
+  | 1 =>
+    have h1 : sqrt ((1 : ℝ) ^ 2 + 0 ^ 2) = 1 := by norm_num
+    have h2 : cos (π / 4) / sin (π / 4) = 1 := by
+      rw [cos_pi_div_four, sin_pi_div_four]; exact div_self (by positivity)
+    simp only [exEnvU, exSpecU, denote, xOf, yOf, zOf, rhoOf, h1, h2, mul_one]
+  | (n + 2) =>
+    simp only [exEnvU, exSpecU, denote, xOf, yOf, cos_pi_div_two, sin_pi_div_two, mul_zero, mul_one]
+
+/-- **`GenericAllU` is satisfiable** for a well-dimensioned expression mixing the three dimensions -/
+theorem exEU_generic : GenericAllU exSpecU exEU := by
+  have h2 : sqrt ((0 : ℝ) ^ 2 + 2 ^ 2) = 2 := by
+    rw [show (0 : ℝ) ^ 2 + 2 ^ 2 = 2 ^ 2 by norm_num]; exact sqrt_sq (by norm_num)
+  simp only [exEU, GenericAllU, evalSU, exSpecU, List.take, List.zipWith_cons_cons, List.zipWith_nil_right, crossL,
+    embL, embT, zKw, tKw, h2, sinh_arsinh, generic_iff2, generic_iff3, generic_iff4, List.length_cons, List.length_nil,
+    LonParamOK, TmpParamOK]
+  norm_num
+
+example (K : Consts ℝ) (A : Arith ℝ) :
+    ∃ v, evalMU K A exEnvU exEU = .ok v ∧ Good v ∧ denote v = some (evalSU exSpecU exEU) :=
+  c01e_eval K A exEnvU exSpecU exEnvU_good exEnvU_denote exEU exEU_generic
+
+/-! #### scalar expressions over the unified language -/
+
+/-- the planar properties exist in every dimension -/
+def UnS.planar : UnS → Prop
+  | .x | .y | .rho | .rho2 | .phi => True
+  | _ => False
+
+/-- the dimensions on which a property exists: planar ones everywhere, spatial ones on 3D / 4D, temporal ones on 4D -/
+def UnS4.dimOK : UnS4 → Nat → Prop
+  | .sp f, n => f.planar ∨ 3 ≤ n
+  | _, n => n = 4
+
+inductive SU : Type
+  | un (f : UnS4) (a : E)
+  | bi (f : BinS) (a b : E)
+
+noncomputable def evalMSU (K : Consts ℝ) (A : Arith ℝ) (ρ : Nat → Vec ℝ) : SU → Except Err (Res ℝ Prop)
+  | .un f a => unS (evalMU K A ρ a) fun va => call evR K A f.name va []
+  | .bi f a b => binS (evalMU K A ρ a) (evalMU K A ρ b) fun va vb => call evR K A f.name va [.v vb]
+
+noncomputable def unSpecL (f : UnS4) : List ℝ → ℝ
+  | [x, y] => uspec4 f x y 0 0
+  | [x, y, z] => uspec4 f x y z 0
+  | [x, y, z, t] => uspec4 f x y z t
+  | _ => 0
+
+/-- two 2D vectors: `dot` and `deltaphi` -/
+noncomputable def bspec2 : BinS → ℝ → ℝ → ℝ → ℝ → ℝ
+  | .dot, x₁, y₁, x₂, y₂ => x₁ * x₂ + y₁ * y₂
+  | .deltaphi, x₁, y₁, x₂, y₂ => P.mod (P.arctan2 y₁ x₁ - P.arctan2 y₂ x₂ + π) (2 * π) - π
+  | _, _, _, _, _ => 0
+
+noncomputable def biSpecL (f : BinS) : List ℝ → List ℝ → ℝ
+  | [x₁, y₁], [x₂, y₂] => bspec2 f x₁ y₁ x₂ y₂
+  | [x₁, y₁, z₁], [x₂, y₂, z₂] => bspec f x₁ y₁ z₁ x₂ y₂ z₂
+  | [x₁, y₁, z₁, t₁], [x₂, y₂, z₂, t₂] => bspec4 f x₁ y₁ z₁ t₁ x₂ y₂ z₂ t₂
+  | _, _ => 0
+
+noncomputable def evalSSU (ρS : Nat → List ℝ) : SU → ℝ
+  | .un f a => unSpecL f (evalSU ρS a)
+  | .bi f a b => biSpecL f (evalSU ρS a) (evalSU ρS b)
+
+def PhiOKU : List ℝ → Prop
+  | x :: y :: _ => ¬ (y = 0 ∧ x < 0)
+  | _ => True
+
+/-- operands generic and of a dimension on which the property / method exists (two operands: of equal dimension; 2D:
+`dot`, `deltaphi`); for `phi`, off the half line of the jump -/
+def GenericSU (ρS : Nat → List ℝ) : SU → Prop
+  | .un f a => GenericAllU ρS a ∧ f.dimOK (evalSU ρS a).length ∧ (f = .sp .phi → PhiOKU (evalSU ρS a))
+  | .bi f a b => (GenericAllU ρS a ∧ GenericAllU ρS b) ∧ (evalSU ρS a).length = (evalSU ρS b).length ∧
+      ((evalSU ρS a).length = 2 → f = .dot ∨ f = .deltaphi)
+
+theorem un2_case (K : Consts ℝ) (A : Arith ℝ) (f : UnS) (hf : f.planar) {va : Vec ℝ} {x y : ℝ} (ha : Good2 va)
+    (da : denote va = some [x, y]) (ga : Generic2 [x, y]) (hphi : f = .phi → ¬ (y = 0 ∧ x < 0)) :
+    call evR K A f.name va [] = .ok (.scalar (uspec f x y 0)) := by
+  obtain ⟨be, mom, az, a, b, rfl, hA⟩ := good2_cases ha
+  have e := denote_V2_eq da
+  simp only [List.cons.injEq, and_true] at e
+  obtain ⟨rfl, rfl⟩ := e
+  have hr : 0 < rhoOf az a b := rho_pos_of hA ((generic2_iff _ _).1 ga)
+  cases f
+  · exact c01m_acc_x K A _ ha.wf _ _ [] da
+  · exact c01m_acc_y K A _ ha.wf _ _ [] da
+  · exact hf.elim
+  · exact c01m_acc_rho K A _ ha.wf (canon2_of_azOK hA) _ _ [] da
+  · exact c01m_acc_rho2 K A _ ha.wf _ _ [] da
+  · exact c01m_acc_phi K A _ ha.wf ⟨hr, canonPhi_of hA hr (hphi rfl)⟩ _ _ [] da
+  all_goals exact hf.elim
+
+theorem bi2_case (K : Consts ℝ) (A : Arith ℝ) (f : BinS) (hf : f = .dot ∨ f = .deltaphi) {va vb : Vec ℝ}
+    {x₁ y₁ x₂ y₂ : ℝ} (ha : Good2 va) (hb : Good2 vb) (da : denote va = some [x₁, y₁]) (db : denote vb = some [x₂, y₂])
+    (ga : Generic2 [x₁, y₁]) (gb : Generic2 [x₂, y₂]) :
+    call evR K A f.name va [.v vb] = .ok (.scalar (bspec2 f x₁ y₁ x₂ y₂)) := by
+  obtain ⟨be1, mom1, az1, a0, a1, rfl, hA1⟩ := good2_cases ha
+  obtain ⟨be2, mom2, az2, b0, b1, rfl, hA2⟩ := good2_cases hb
+  have e₁ := denote_V2_eq da
+  have e₂ := denote_V2_eq db
+  simp only [List.cons.injEq, and_true] at e₁ e₂
+  obtain ⟨rfl, rfl⟩ := e₁
+  obtain ⟨rfl, rfl⟩ := e₂
+  have hr1 : 0 < rhoOf az1 a0 a1 := rho_pos_of hA1 ((generic2_iff _ _).1 ga)
+  have hr2 : 0 < rhoOf az2 b0 b1 := rho_pos_of hA2 ((generic2_iff _ _).1 gb)
+  rcases hf with rfl | rfl
+  · obtain ⟨p, q, hp, hq, hcall⟩ :=
+      c11m_dot K A (C11M.V2 be1 mom1 az1 a0 a1) (C11M.V2 be2 mom2 az2 b0 b1) ha.wf hb.wf rfl trivial trivial
+        (fun h => by cases h) (fun h => by cases h) trivial trivial
+    rw [da] at hp; rw [db] at hq
+    cases hp; cases hq
+    exact hcall
+  · show call evR K A "deltaphi" _ [.v _] = _
+    rw [C04M.deltaphi_eval K A _ _ ha.wf hb.wf]
+    show Except.ok (Res.scalar (planar_deltaphi.eval az1 az2 a0 a1 b0 b1)) = _
+    rw [refine_spatial_deltaphi_key _ _ _ _ _ _ hr1 hr2]
+    rfl
+
+/-- **scalar expressions, all dimensions** -/
+theorem c01e_evalSU (K : Consts ℝ) (A : Arith ℝ) (ρ : Nat → Vec ℝ) (ρS : Nat → List ℝ)
+    (hρ : ∀ i, Good (ρ i)) (hS : ∀ i, denote (ρ i) = some (ρS i)) (s : SU) (hg : GenericSU ρS s) :
+    evalMSU K A ρ s = .ok (.scalar (evalSSU ρS s)) := by
+  cases s with
+  | un f a =>
+    obtain ⟨ga, hdim, hphi⟩ := hg
+    obtain ⟨va, ea, ha, da⟩ := c01e_eval K A ρ ρS hρ hS a ga
+    have g := genericAllU_self ga
+    simp only [evalMSU, evalSSU, ea, unS]
+    rcases generic_length g with hl | hl | hl
+    · have g2 := generic_len2 g hl
+      obtain ⟨x, y, e, -⟩ := id g2
+      rw [e] at da g2 hphi hdim ⊢
+      cases f with
+      | sp f' =>
+        have hp : f'.planar := by
+          rcases hdim with h | h
+          · exact h
+          · simp at h
+        exact un2_case K A f' hp (good_to2 ha da rfl) da g2 (fun e' => hphi (by rw [e']))
+      | _ => simp [UnS4.dimOK] at hdim
+    · have g3 := generic_len3 g hl
+      obtain ⟨x, y, z, e, -⟩ := id g3
+      rw [e] at da g3 hphi hdim ⊢
+      cases f with
+      | sp f' => exact un_case K A f' (good_to3 ha da rfl) da g3 (fun e' => hphi (by rw [e']))
+      | _ => simp [UnS4.dimOK] at hdim
+    · have g4 := generic_len4 g hl
+      obtain ⟨x, y, z, t, e, -⟩ := id g4
+      rw [e] at da g4 hphi ⊢
+      exact un4_case K A f (good_to4 ha da rfl) da g4 hphi
+  | bi f a b =>
+    obtain ⟨⟨ga, gb⟩, hl, h2D⟩ := hg
+    obtain ⟨va, ea, ha, da⟩ := c01e_eval K A ρ ρS hρ hS a ga
+    obtain ⟨vb, eb, hb, db⟩ := c01e_eval K A ρ ρS hρ hS b gb
+    have g₁ := genericAllU_self ga
+    have g₂ := genericAllU_self gb
+    simp only [evalMSU, evalSSU, ea, eb, binS]
+    rcases generic_length g₁ with hla | hla | hla
+    · have hlb : (evalSU ρS b).length = 2 := by rw [← hl, hla]
+      have g2a := generic_len2 g₁ hla
+      have g2b := generic_len2 g₂ hlb
+      have hf := h2D hla
+      obtain ⟨x₁, y₁, e₁, -⟩ := id g2a
+      obtain ⟨x₂, y₂, e₂, -⟩ := id g2b
+      rw [e₁] at da g2a ⊢
+      rw [e₂] at db g2b ⊢
+      exact bi2_case K A f hf (good_to2 ha da rfl) (good_to2 hb db rfl) da db g2a g2b
+    · have hlb : (evalSU ρS b).length = 3 := by rw [← hl, hla]
+      have g3a := generic_len3 g₁ hla
+      have g3b := generic_len3 g₂ hlb
+      obtain ⟨x₁, y₁, z₁, e₁, -⟩ := id g3a
+      obtain ⟨x₂, y₂, z₂, e₂, -⟩ := id g3b
+      rw [e₁] at da g3a ⊢
+      rw [e₂] at db g3b ⊢
+      exact bi_case K A f (good_to3 ha da rfl) (good_to3 hb db rfl) da db g3a g3b
+    · have hlb : (evalSU ρS b).length = 4 := by rw [← hl, hla]
+      have g4a := generic_len4 g₁ hla
+      have g4b := generic_len4 g₂ hlb
+      obtain ⟨x₁, y₁, z₁, t₁, e₁, -⟩ := id g4a
+      obtain ⟨x₂, y₂, z₂, t₂, e₂, -⟩ := id g4b
+      rw [e₁] at da g4a ⊢
+      rw [e₂] at db g4b ⊢
+      exact bi4_case K A f (good_to4 ha da rfl) (good_to4 hb db rfl) da db g4a g4b
+
+/-- **C01 for scalar expressions, all dimensions** -/
+theorem c01e_indepSU (K : Consts ℝ) (A : Arith ℝ) (ρ₁ ρ₂ : Nat → Vec ℝ)
+    (h₁ : ∀ i, Good (ρ₁ i)) (h₂ : ∀ i, Good (ρ₂ i)) (hd : ∀ i, denote (ρ₁ i) = denote (ρ₂ i)) (s : SU)
+    (hg : GenericSU (specEnv ρ₁) s) :
+    evalMSU K A ρ₁ s = evalMSU K A ρ₂ s ∧ evalMSU K A ρ₁ s = .ok (.scalar (evalSSU (specEnv ρ₁) s)) := by
+  have e₁ := c01e_evalSU K A ρ₁ (specEnv ρ₁) h₁ (denote_specEnvU h₁) s hg
+  have e₂ := c01e_evalSU K A ρ₂ (specEnv ρ₁) h₂ (fun i => by rw [← hd i]; exact denote_specEnvU h₁ i) s hg
+  exact ⟨by rw [e₁, e₂], e₁⟩
+
+/-- satisfiable: the invariant mass `tau` of the 4D example expression, and `deltaphi` of the two 2D projections -/
+example : GenericSU exSpecU (.un .tau exEU) ∧ GenericSU exSpecU (.bi .deltaphi (.to2D (.var 0)) (.var 2)) := by
+  refine ⟨⟨exEU_generic, ?_, fun h => by cases h⟩, ?_⟩
+  · simp only [UnS4.dimOK, exEU, evalSU, exSpecU, List.take, List.zipWith_cons_cons, List.zipWith_nil_right, crossL,
+      embL, embT, List.length_cons, List.length_nil]
+  · simp only [GenericSU, GenericAllU, evalSU, exSpecU, List.take, generic_iff2, generic_iff4, List.length_cons,
+      List.length_nil]
+    norm_num
+
 end C01E
 end VR
